@@ -70,6 +70,7 @@ type TypeSpec struct {
 	Name string // "interpreter.Int128Value"
 	Inv  *Clause
 	Num  *Clause
+	Int  *Clause // integer part (truncated toward zero); defaults to Num
 }
 
 type ContractSet struct {
@@ -396,7 +397,7 @@ func (cs *ContractSet) parseLines(lines []string, file, pkgPath, schemaDir strin
 			cs.Funcs[key] = cur
 			cs.Order = append(cs.Order, key)
 			continue
-		case "typeinv", "typenum":
+		case "typeinv", "typenum", "typeint":
 			rest := strings.TrimSpace(strings.TrimPrefix(l, fields[0]))
 			c := strings.Index(rest, ":")
 			if c < 0 {
@@ -412,9 +413,12 @@ func (cs *ContractSet) parseLines(lines []string, file, pkgPath, schemaDir strin
 				ts = &TypeSpec{Name: tn}
 				cs.Types[tn] = ts
 			}
-			if fields[0] == "typeinv" {
+			switch fields[0] {
+			case "typeinv":
 				ts.Inv = &cl
-			} else {
+			case "typeint":
+				ts.Int = &cl
+			default:
 				ts.Num = &cl
 			}
 			cur = nil
